@@ -20,6 +20,7 @@ package phantoms
 //@   ensures @C14: result1 == nil ==> result0 != nil && result0.ip != nil && len(*result0.ip) == len(net1.IPNet.IP)
 //@   ensures @C14: result1 == nil ==> beStr(string(*result0.ip)) == old(base) + old(bigval(offset)) && old(base) <= beStr(string(*result0.ip)) && beStr(string(*result0.ip)) < old(base) + old(size)
 //@   ensures @C14: result1 == nil ==> result0.supportRandomPort == net1.supportRandomPort
+//@   assigns nothing
 //@   checks safety
 
 // Frame of the subnet loader as its callers need it (reads the environment and a file, builds fresh objects).
@@ -207,9 +208,42 @@ package phantoms
 //@ func selectPhantomImplVarint(seed []byte, subnets []*phantomNet) (*PhantomIP, error)
 //@   assigns nothing
 //@   trusted
+// C14 "stays inside the configured subnets" for the selection as a whole (HKDF algorithm, client library >= 2): the
+// address returned lies inside one of the subnets handed in (and carries that subnet's port-randomisation flag). The two
+// loops are cut by invariants: the first lays the subnets out as consecutive intervals [min, max] of the total address
+// count (entry k belongs to subnets[k], max - min + 1 is its size), the second finds the interval holding the draw.
+//@ define netBase(n *phantomNet) int = beStr(string(n.IPNet.IP))
+//@ define netSize(n *phantomNet) int = pow2(maskBits(n.IPNet.Mask) - maskOnes(n.IPNet.Mask))
+//@ define inNet(p *PhantomIP, n *phantomNet) bool = p != nil && p.ip != nil && len(*p.ip) == len(n.IPNet.IP) && netBase(n) <= beStr(string(*p.ip)) && beStr(string(*p.ip)) < netBase(n) + netSize(n) && p.supportRandomPort == n.supportRandomPort
 //@ func selectPhantomImplHkdf(seed []byte, subnets []*phantomNet) (*PhantomIP, error)
+// (the subnets are parsed networks - wfNet; the callers Select / selectIPAddr do not carry this fact from the parser
+// yet, so it is a precondition that only callers under `checks safety` must prove, and the result clause is stated under
+// the same condition so that no caller learns more than was proved)
+//@   requires @SAFETY: forall i int :: 0 <= i && i < len(subnets) ==> wfNet(subnets[i])
+//@   ensures @C14 @C01: old(forall i int :: 0 <= i && i < len(subnets) ==> wfNet(subnets[i])) && result1 == nil ==> result0 != nil && (exists j int :: 0 <= j && j < len(subnets) && inNet(result0, subnets[j]))
+//@   ensures @C14: len(subnets) == 0 ==> result1 != nil
+//@   atcall selectAddrFromSubnetOffset before: snap cj := iter
+// C01/C14 "a fixed function of those inputs": the one draw is taken from the HKDF stream keyed by the seed alone under
+// the published label, and it is a draw below the total number of addresses
+//@   atcall hkdf.New before: assert @C01 @C14: arg1 == seed && len(arg2) == 0 && string(arg3) == "phantom-addr-id"
+//@   atcall hkdf.New after: snap rd := res
+//@   atcall rand.Int before: assert @C01 @C14: defined(rd) && arg0 == rd && arg1 == addressTotal
+// the address inside the chosen subnet is the draw's offset from the start of that subnet's interval
+//@   atcall selectAddrFromSubnetOffset before: assert @C01 @C14: bigval(arg1) == bigval(id) - bigval(&idNets[iter].min) && arg0 == subnets[iter]
 //@   assigns nothing
-//@   trusted
+//@ loop 1:
+//@   invariant 0 <= iter && iter <= len(subnets) && len(idNets) == iter && (cap(idNets) == 0 || fresh(idNets))
+//@   invariant addressTotal != nil && fresh(addressTotal) && bigval(addressTotal) >= 0
+//@   invariant forall k int :: 0 <= k && k < len(idNets) ==> addressTotal != &idNets[k].max && addressTotal != &idNets[k].min
+//@   invariant forall k int :: 0 <= k && k < len(idNets) ==> idNets[k].net == subnets[k]
+//@   invariant forall k int :: 0 <= k && k < len(idNets) ==> bigval(&idNets[k].min) >= 0
+//@   invariant forall k int :: 0 <= k && k < len(idNets) ==> bigval(&idNets[k].max) == bigval(&idNets[k].min) + netSize(subnets[k]) - 1
+//@   modifies bigval(addressTotal)
+//@ loop 2:
+//@   invariant id != nil && bigval(id) >= 0 && len(idNets) == len(subnets)
+//@   invariant forall k int :: 0 <= k && k < len(idNets) ==> idNets[k].net == subnets[k]
+//@   invariant result != nil ==> defined(cj) && 0 <= cj && cj < len(subnets) && inNet(result, subnets[cj])
+//@   modifies drawn
 
 // C01 (published algorithm, HKDF group chooser): the weighted groups are ordered by the STRICT comparison of their
 // weights; with a non-strict comparison sort.Slice leaves groups of equal weight in a different order, and the order
